@@ -149,8 +149,8 @@ def _chunk(cases):
 
 def case_list(sp, thorough):
     cases = []
-    k = 6 if thorough else 4
-    exps = (1, -1, 2) if thorough else (1, -1)
+    k = 8 if thorough else 4
+    exps = (1, -1, 2, -2, 3) if thorough else (1, -1)
     # T1 triples: K units per dimension, all ordered triples u != v (w free, != v)
     for dim, names in sorted(sp.groups.items()):
         pick = rotate(names)[:k] if len(names) > k else names
